@@ -248,22 +248,44 @@ def check_returned(chk, fi, res, module: str) -> None:
 # tertiary.torsion_angle: the wrapper hands the coordinates of its four atoms to the torsion function in order
 # ---------------------------------------------------------------------------------------------------------------------
 def check_wrapper(chk, ta) -> bool:
-    """True when the rule was decided by evaluation (ok or violation); False: not evaluable, the caller reads the pinned form."""
+    """True when the rule was decided by evaluation (ok or violation); False: not evaluable, the caller reads the pinned form.
+    The wrapper is evaluated for atoms in general position and for placements that a rigid motion can produce (one atom exactly at
+    the origin, atoms in a coordinate plane): the value is the torsion function's value of the four coordinates in every case."""
     repo = chk.repo
     params = [a.arg for a in ta.node.args.args]
     if len(params) != 4:
         return False
-    env: Dict[str, Any] = {p: Stub(f"atom {i + 1}", name=f"X{i + 1}", coordinates=Stub(f"xyz {i + 1}", tag=f"atom {i + 1}")) for i, p in enumerate(params)}
-    env.update({"calculate_torsion_angle_coords": _tor_stub, "np": _np_stub(), "numpy": _np_stub()})
+    general = [(1.5, 2.5, 3.5), (2.5, 1.0, 4.0), (3.0, 3.5, 1.5), (4.5, 2.0, 2.5)]
+    placements: List[Tuple[str, List[Tuple[float, float, float]]]] = [("atoms in general position", general)]
+    for k in range(4):
+        placements.append((f"atom {k + 1} exactly at the origin (0, 0, 0)", [(0.0, 0.0, 0.0) if i == k else p for i, p in enumerate(general)]))
+    placements.append(("all four atoms in the plane z = 0", [(x, y, 0.0) for x, y, _ in general]))
+    placements.append(("an atom on a coordinate axis", [(0.0, 0.0, 2.0)] + general[1:]))
+    want = tuple(f"atom {i + 1}" for i in range(4))
+    wrong: Dict[str, str] = {}
     body = [s for s in ta.node.body if not (isinstance(s, ast.Expr) and isinstance(s.value, ast.Constant))]
     try:
-        kind, val = BlockEvalX(repo, T1, env).run(body)
+        for label, pts in placements:
+            env: Dict[str, Any] = {p: Stub(f"atom {i + 1}", name=f"X{i + 1}", coordinates=_Pt(f"atom {i + 1}", pts[i])) for i, p in enumerate(params)}
+            env.update({"calculate_torsion_angle_coords": _tor_stub, "np": _geom_np(), "numpy": _geom_np(), "math": _math_stub()})
+            kind, val = BlockEvalX(repo, T1, env).run(body)
+            if kind != "return":
+                return False
+            if isinstance(val, Tor):
+                if tuple(val.quad) != want:
+                    wrong[label] = f"the torsion of the coordinates of {list(val.quad)} instead of atoms 1, 2, 3, 4 in order"
+            elif label == placements[0][0]:
+                return False  # not even the plain case gives the torsion function's value: the pinned form decides
+            else:
+                wrong[label] = f"{val!r} instead of the value of the torsion function"
     except Exception:
         return False
-    if kind != "return" or not isinstance(val, Tor):
-        return False
-    want = tuple(f"atom {i + 1}" for i in range(4))
-    chk.expect(tuple(val.quad) == want, "torsion-wrapper", ta.where, "torsion_angle passes the coordinates of its four atoms to calculate_torsion_angle_coords in order (evaluated)", f"torsion_angle passes the coordinates of {list(val.quad)} instead of atoms 1, 2, 3, 4 in order", K(ta, "wrapper"), expected=list(want), found=list(val.quad))
+    order = [k for k in wrong if k == placements[0][0]]
+    if order or not wrong:
+        chk.expect(not wrong, "torsion-wrapper", ta.where, f"torsion_angle returns calculate_torsion_angle_coords of the coordinates of its four atoms in order, wherever the atoms sit ({len(placements)} placements evaluated: general position, an atom at the origin, atoms in a coordinate plane / on an axis)", f"torsion_angle passes {wrong.get(placements[0][0])}", K(ta, "wrapper"), expected=list(want), found=wrong)
+    else:
+        k0 = next(iter(wrong))
+        chk.violation("torsion-wrapper", ta.where, f"torsion_angle depends on where the molecule sits: with {k0} it returns {wrong[k0]}, with atoms in general position the torsion - a rigid motion (a translation that puts an atom at the origin or into a coordinate plane) changes the value, and chi / cis-trans / BPh classes inherit it", K(ta, "wrapper-placement"), expected="the torsion of the four coordinates for every placement", found=wrong)
     return True
 
 
@@ -763,6 +785,22 @@ class _Pt:
 
     def __iter__(self):
         return iter(self.xyz)
+
+    def any(self):
+        return any(c != 0 for c in self.xyz)
+
+    def all(self):
+        return all(c != 0 for c in self.xyz)
+
+    def tolist(self):
+        return list(self.xyz)
+
+    def __eq__(self, o):
+        if isinstance(o, (int, float)):
+            return _Pt(f"({self.tag} == {o})", [float(c == o) for c in self.xyz])
+        return NotImplemented
+
+    __hash__ = None
 
     def __len__(self):
         return 3
